@@ -71,13 +71,18 @@ CHECKS = {
    note=NOTE_COMMON + 'Exact integer arithmetic; no floating-point assumptions. penalties.periodic is a recorded known finding (known_findings.json).',
    technique='Lean 4 theorems (induction / big-operator algebra) + differential correspondence of the executable model with pygam.penalties',
    ref='7/C04'),
+ 'C11': dict(
+   text='Theorems about the validation model: check_array rejects any non-finite value at any position of an array of any length, wrong width, too few samples; check_lengths / check_X_y pass exactly on equal lengths; weights / exposure stay non-finite through the float32 cast (and overflow is rejected); check_y rejects out-of-domain targets; for every one of 19 public entry points (table of validation steps in call order) and every data argument, a corrupted argument yields ValueError on a fitted model, and every entry that needs a fit yields AttributeError before fit; validation raises only ValueError / AttributeError. Tied to /repo by an exhaustive (class x entry point x argument x 20 corruption kinds x position x container x fitted state) comparison of exception classes, signature inspection, and a hostile-data stream (fits end in ValueError-family or finite results).',
+   note=NOTE_COMMON + 'PARTIAL: "a successful fit is finite" is floating point and checked only by the hostile.fits stream; partial_dependence deliberately checks only the requested term\'s own categories (entry_rejects_category_partial with witness).',
+   technique='Lean 4 theorems (list induction, finite case split over the entry-point table) + exhaustive exception-class correspondence',
+   ref='7/C11'),
  'C16': dict(
    text='Theorems for every data row, term configuration and term list: intercept = 1, linear = raw feature, spline = basis row x by-variable, factor = indicator of the category under the knots compile derives (dummy coding drops the first), tensor = row-wise Kronecker product with the last marginal fastest (row-major index), model matrix = concatenation in term order, coefficient index blocks contiguous, ordered (disjoint) and covering. Tied to /repo by exact rational comparison of model rows with TermList.build_columns / term.build_columns / get_coef_indices on random term programs with query data different from the training data, plus a NumPy oracle of the documented rule.',
    note=NOTE_COMMON + 'Spline columns are those of C03 (same model function); order-0 / cyclic spline features are not sampled within 1e-6 of a jump.',
    technique='Lean 4 theorems (list induction, Nat div/mod index algebra, C03 basis lemmas) + exact-rational differential correspondence on random term programs',
    ref='7/C16'),
 }
-PENDING = ['C08','C11','C12','C13','C14','C15']
+PENDING = ['C08','C12','C13','C14','C15']
 
 def main():
     checks = []
